@@ -148,6 +148,10 @@ func (f *File) isValidAlias(alias string) bool {
 }
 
 func (f *File) isDotImport(path string) bool {
+	if path == "C" {
+		// the "C" pseudo-package is always imported as C, so it can't be a dot-import
+		return false
+	}
 	if id, ok := f.hints[path]; ok {
 		return id.name == "." && id.alias
 	}
